@@ -86,9 +86,16 @@ def check_property(drv, rng, dg, out, stats):
     name = rng.choice(["a", "class_", "a_b", "x"])
     source = rng.choice([None, name, "other", "a b"])
     prop = Property(el, required=required, source=source)
+    reused = False
+    if source is None and rng.random() < 0.5:
+        # one wrapper object reused under a second attribute name: the first binding fixed its source
+        first = name + "_first"
+        _elements.Element(properties={first: prop})
+        source = first
+        reused = True
     holder = _elements.Element(properties={name: prop})
     text = repr(prop)
-    case = {"property": {"name": name, "required": required, "source": source}, "element": sub, "repr": text}
+    case = {"property": {"name": name, "required": required, "source": source, "reused": reused}, "element": sub, "repr": text}
     out.note_case({"property": case["property"], "element": sub}, True)
     try:
         real = pyast.canon_expr_text(text)
@@ -183,7 +190,11 @@ def _replay_case(case):
         el = dsl.build(case["element"])
         if "property" in case:
             p = case["property"]
-            prop = Property(el, required=p["required"], source=p["source"])
+            if p.get("reused"):
+                prop = Property(el, required=p["required"])
+                _elements.Element(properties={p["source"]: prop})
+            else:
+                prop = Property(el, required=p["required"], source=p["source"])
             holder = _elements.Element(properties={p["name"]: prop})
             back = eval(repr(prop), namespace_for(el))  # noqa: S307
             rebuilt = _elements.Element(properties={p["name"]: back})
